@@ -466,6 +466,12 @@ def objCompatMap (rec : Rec) (env : Env) (props : List (String × PropT)) (m : L
         (match lookupS kp.1 m with | none => true | some .nil => true | _ => false))
     then .cerr else done
 
+/-- Validate / Serialize of one entry of a native object value -/
+def objEntry (rec : Rec) (op : Op) (env : Env) (props : List (String × PropT)) (k : String) (e : V) : Out V :=
+  match lookupS k props with
+  | none => .cerr
+  | some p => (rec op env p.ty e).addSeg k
+
 def runObj (rec : Rec) (op : Op) (env : Env) (id : String) (props : List (String × PropT)) (v : V) : Out V :=
   match op with
   | .U =>
@@ -478,10 +484,7 @@ def runObj (rec : Rec) (op : Op) (env : Env) (id : String) (props : List (String
       | none => .cerr  -- not a Go value: a map[string]any has string keys
       | some m =>
         (interdeps props (fun k => hasKey k m)).bind fun _ =>
-          (forSV (fun k e =>
-            match lookupS k props with
-            | none => .cerr
-            | some p => (rec op env p.ty e).addSeg k) m).bind fun m' =>
+          (forSV (objEntry rec op env props) m).bind fun m' =>
             if op == .V then done else .ok (toStrAny m')
     | _ => .cerr
   | .C =>
@@ -510,6 +513,12 @@ def oneOfSelect (rec : Rec) (env : Env) (intKey : Bool) (disc : String) (inlined
         (rewrapC (rec .C env mt (toStrAny clone))).bind fun _ => .ok (key, mt, clone)
       else .ok (key, mt, clone)
 
+/-- is this entry keyed by exactly the string `disc`? (`MapIndex(reflect.ValueOf(name))`) -/
+def isDiscKey (disc : String) (kv : V × V) : Bool :=
+  match kv.1 with
+  | .str s => s == disc
+  | _ => false
+
 def oneOfUnser (rec : Rec) (x : Ext) (env : Env) (intKey : Bool) (disc : String) (inlined : Bool)
     (members : List (Key × Ty)) (v : V) : Out V :=
   match v with
@@ -519,7 +528,7 @@ def oneOfUnser (rec : Rec) (x : Ext) (env : Env) (intKey : Bool) (disc : String)
     | none => .cerr
     | some (sh, kvs) =>
       if !(sh.key == .any || sh.key == .string) then .cerr else
-      match kvs.find? (fun kv => match kv.1 with | .str s => s == disc | _ => false) with
+      match kvs.find? (isDiscKey disc) with
       | none => .cerr
       | some (_, d) =>
         let typed : Out Key :=
